@@ -1,0 +1,21 @@
+//go:build verif
+
+package gtab
+
+import (
+	"bytes"
+
+	"seehuhn.de/go/sfnt/parser"
+)
+
+// Thin export of readNested for the /verif correspondence harness (property C02).
+// Add-only; compiled only with the build tag "verif".  No behaviour is changed.
+
+// VerifReadNested seeks to pos and runs readNested(p, count).
+func VerifReadNested(data []byte, pos int64, count int) ([]SeqLookup, error) {
+	p := parser.New(bytes.NewReader(data))
+	if err := p.SeekPos(pos); err != nil {
+		return nil, err
+	}
+	return readNested(p, count)
+}
